@@ -93,6 +93,11 @@ type SpecFunc struct {
 	Body   ast.Expr
 	Rec    bool
 	Src    string
+	// recursive specs: the cells of each slice parameter the value may depend on
+	// (half-open index interval over the scalar parameters; absent = the whole slice)
+	// and the termination measure
+	FootLo, FootHi map[string]ast.Expr
+	Decreases      ast.Expr
 }
 
 type Lemma struct {
@@ -625,6 +630,49 @@ func (cs *ContractSet) ParseContractFile(fset *token.FileSet, pkgPath string, fi
 				}
 			}
 			sp.Ret = strings.TrimSpace(r[pc+1 : pc+eq])
+			if sp.Rec {
+				// RET [reads s[lo..hi], t[lo..hi]] [decreases expr]
+				hdr := sp.Ret
+				if i := strings.Index(hdr, " decreases "); i >= 0 {
+					d, err := parseExprSrc(hdr[i+11:])
+					if err != nil {
+						errf(l, "%v", err)
+						continue
+					}
+					sp.Decreases = d
+					hdr = strings.TrimSpace(hdr[:i])
+				}
+				if i := strings.Index(hdr, " reads "); i >= 0 {
+					sp.FootLo, sp.FootHi = map[string]ast.Expr{}, map[string]ast.Expr{}
+					for _, fs := range splitTopAll(hdr[i+7:], ",") {
+						fs = strings.TrimSpace(fs)
+						bo := strings.IndexByte(fs, '[')
+						if bo < 0 || !strings.HasSuffix(fs, "]") {
+							errf(l, "bad footprint %q", fs)
+							continue
+						}
+						inner := fs[bo+1 : len(fs)-1]
+						dd := splitTop(inner, "..")
+						if dd < 0 {
+							errf(l, "bad footprint %q", fs)
+							continue
+						}
+						lo, err1 := parseExprSrc(inner[:dd])
+						hi, err2 := parseExprSrc(inner[dd+2:])
+						if err1 != nil || err2 != nil {
+							errf(l, "bad footprint %q", fs)
+							continue
+						}
+						sp.FootLo[strings.TrimSpace(fs[:bo])], sp.FootHi[strings.TrimSpace(fs[:bo])] = lo, hi
+					}
+					hdr = strings.TrimSpace(hdr[:i])
+				}
+				sp.Ret = hdr
+				if sp.Decreases == nil {
+					errf(l, "spec rec %s needs a decreases measure", sp.Name)
+					continue
+				}
+			}
 			e, err := parseExprSrc(r[pc+eq+1:])
 			if err != nil {
 				errf(l, "%v", err)
